@@ -121,7 +121,30 @@ func ruleC02_10(c *Ctx) {
 		br.install(in, nil)
 		in.Run(r.fn, nil, nil)
 	}
+	// the flush and the helpers it may have been split into
 	flushFn := c.P.Method("encode", "Encoder", "flushDrawOps", true)
+	flushRegion := map[*ssa.Function]bool{}
+	{
+		work := []*ssa.Function{flushFn}
+		for len(work) > 0 {
+			fn := work[len(work)-1]
+			work = work[:len(work)-1]
+			if fn == nil || flushRegion[fn] || fn.Blocks == nil || !c.P.FnInModule(fn) {
+				continue
+			}
+			flushRegion[fn] = true
+			work = append(work, fn.AnonFuncs...)
+			for _, b := range fn.Blocks {
+				for _, ins := range b.Instrs {
+					if ci, ok := ins.(ssa.CallInstruction); ok {
+						if sc := ci.Common().StaticCallee(); sc != nil {
+							work = append(work, sc)
+						}
+					}
+				}
+			}
+		}
+	}
 	var fns []*ssa.Function
 	for fn := range layer {
 		fns = append(fns, fn)
@@ -153,7 +176,14 @@ func ruleC02_10(c *Ctx) {
 			if len(sr.failures) > 0 {
 				// the flush reads drawArgs[i] with i running over all chunks: a relation between two loop counters and
 				// the length that intervals do not express; it is what C01.2 establishes, letter by letter
-				if ia, ok := ins.(*ssa.IndexAddr); ok && fn == flushFn && isFloat32Slice(ia.X.Type()) && flushOK && flushN >= 19 {
+				var container types.Type
+				switch x := ins.(type) {
+				case *ssa.IndexAddr:
+					container = x.X.Type()
+				case *ssa.Slice:
+					container = x.X.Type()
+				}
+				if container != nil && flushRegion[fn] && isFloat32Slice(container) && flushOK && flushN >= 19 {
 					R.Obligation(construct, c.Pos(ins), false, fmt.Sprintf("evaluated %d times", sr.evaluated), fmt.Sprintf("in range by the run-length discipline: %d obligations of C01.2 on flushDrawOps hold (count = len/k, sequential reads, chunk <= remaining)", flushN))
 					continue
 				}
